@@ -124,7 +124,8 @@ func condString(e ast.Expr) string {
 }
 
 func extractC18() *lean {
-	l := newLean("C18")
+	l := newLean("C18", "NutsModel.C18.KeyAct")
+	c18KeyFacts(l)
 	_, util := parseFile("vdr/didweb/util.go")
 	enc, ok1 := caseChars(funcDecl(util, "shouldPercentEncode"))
 	dec, ok2 := caseChars(funcDecl(util, "percentDecodeChar"))
